@@ -822,14 +822,20 @@ def suspended_table(ctx, fe):
                                 run_susp(ctx, fe, h, (fe, 'susp', upd, where, base_v, attrs, v, dflt0, second),
                                          {'update': upd, 'where': where, 'route_validator': base_v, 'attrs': attrs, 'verdict': v},
                                          f'{fe}.suspended.{upd}.{where}')
+    n_rot = 0
     # the suspended validator TERMINATES WITH AN EXCEPTION when it is resumed (the certificate fetch it was waiting for
     # timed out / was nacked / the face went down): every exception class x every update of the routing state in the window
     # (thorough: also before / after, all attribute classes, a second Interest that is accepted)
     for upd in S_UPDATES:
         for where in (('before', 'window', 'after') if ctx.thorough else ('window',)):
             for base_v in (True, False):
-                for attrs in (S_ATTRS if ctx.thorough else S_ATTRS[:3]):
-                    for v in raises():
+                # quick: the attribute classes whose validator is consulted (legacy: the signed ones)
+                for attrs in (S_ATTRS if ctx.thorough else S_ATTRS[:3] if fe == 'v2' else S_ATTRS[1:3]):
+                    # quick: three exception classes per combination, rotating (every class meets every update at least
+                    # once); thorough: the full product
+                    n_rot += 1
+                    R = raises()
+                    for v in (R if ctx.thorough else [R[(3 * n_rot + j) % len(R)] for j in range(3)]):
                         for dflt0 in ((False, True) if fe == 'v1' else (False,)):
                             for second in ((None, 'susp') if ctx.thorough else (None,)):
                                 h = susp_history(fe, base_v, upd, where, attrs, v, dflt0, second)
